@@ -8,18 +8,21 @@ EXTENDS CompileExec, Json
 
 Trace == ndJsonDeserialize("trace.ndjson")
 VARIABLES l,      \* next line of the trace
-          rw      \* the cycle reports that existed when the caller woke up from its last wait
-tvars == <<vars, l, rw>>
+          rw,     \* the cycle reports CERTAINLY in the handler when the caller woke up from its last wait
+          firm    \* the cycle reports certainly recorded in the handler: those whose reporting task has
+                  \* logged its Done event (the Cycle event itself is logged just BEFORE the handler call)
+tvars == <<vars, l, rw, firm>>
 
 Ev == Trace[l]
 IsEvent0(e) == l <= Len(Trace) /\ Trace[l].ev = e /\ l' = l + 1
-IsEvent(e) == IsEvent0(e) /\ rw' = rw
+IsEvent1(e) == IsEvent0(e) /\ rw' = rw
+IsEvent(e) == IsEvent1(e) /\ firm' = firm
 CfgOf(e) == [imports |-> e.imports, req |-> e.req, plan |-> e.plan, par |-> e.par, ovr |-> e.ovr]
 Top(f) == stack[f][Len(stack[f])]
 
 TraceInit ==
   /\ Trace[1].ev = "Config"
-  /\ l = 2 /\ rw = {}
+  /\ l = 2 /\ rw = {} /\ firm = {}
   /\ LET v == InitVal(CfgOf(Trace[1])) IN
     /\ imports = v.imports /\ req = v.req /\ plan = v.plan /\ par = v.par /\ ovr = v.ovr
     /\ created = v.created /\ pc = v.pc /\ idx = v.idx /\ blocked = v.blocked /\ stack = v.stack
@@ -29,7 +32,7 @@ TraceInit ==
 
 (* next run of the batch *)
 TConfig ==
-  /\ IsEvent0("Config") /\ rw' = {} /\ l > 1 /\ Trace[l - 1].ev = "End"
+  /\ IsEvent0("Config") /\ rw' = {} /\ firm' = {} /\ l > 1 /\ Trace[l - 1].ev = "End"
   /\ LET v == InitVal(CfgOf(Ev)) IN
     /\ imports' = v.imports /\ req' = v.req /\ plan' = v.plan /\ par' = v.par /\ ovr' = v.ovr
     /\ created' = v.created /\ pc' = v.pc /\ idx' = v.idx /\ blocked' = v.blocked /\ stack' = v.stack
@@ -129,7 +132,8 @@ TWoke ==
    the outcome together with the step that caused it (cycle report, failed or cancelled wait) the
    later Done event only has to agree with it.                                                 *)
 TDone ==
-  /\ IsEvent("Done")
+  /\ IsEvent1("Done")
+  /\ firm' = firm \cup {r \in reports : r[1][1] = Ev.f}
   /\ LET f == Ev.f
          cls == Ev.err IN
      \/ out[f] # "pending" /\ out[f] = cls /\ pc[f] \in {"fin", "done"} /\ UNCHANGED vars
@@ -139,7 +143,7 @@ TDone ==
      \/ out[f] = "pending" /\ cls = "panic" /\ PanicFail(f)
 
 TMainWoke ==
-  /\ IsEvent0("MainWoke") /\ rw' = reports
+  /\ IsEvent0("MainWoke") /\ rw' = firm /\ firm' = firm
   /\ mpc = "wait" /\ midx = Ev.i + 1
   /\ \/ Ev.how = "ready" /\ MainWaitReady
      \/ Ev.how = "ctx" /\ MainWaitCtx
@@ -147,8 +151,10 @@ TMainWoke ==
 (* The caller reads h.Error() somewhere between its last wake-up and the moment the Return event is
    logged (the handler's mutex is in package reporter and carries no hook), and a task's Cycle event is
    logged just before the handler is updated.  So the value returned is the model's result computed
-   either with the reports known now, or - if no cycle had been reported when the caller woke up for
-   the last time - the first task failure.                                                          *)
+   either with the reports known now, or - if no cycle report was CERTAINLY recorded (its task Done)
+   when the caller woke up for the last time - the first task failure.  (Until vp check 3 the window
+   used the reports whose Cycle event had been logged; a task preempted between that event and the
+   handler call made the caller legitimately return the first failure: false alarm, DESIGN 9.5.)   *)
 TReturn == /\ IsEvent("Return")
            /\ MainReturn
            /\ \/ mres' = Ev.err
